@@ -26,36 +26,56 @@ func Watchdog(d time.Duration, needles []string, f func() error) (err error, hun
 		return e, "", false
 	case <-time.After(d):
 	}
-	buf := make([]byte, 4<<20)
-	n := runtime.Stack(buf, true)
-	dump := string(buf[:n])
-	for _, g := range strings.Split(dump, "\n\n") {
-		for _, nd := range needles {
-			all := true
-			for _, part := range strings.Split(nd, "+") {
-				if !strings.Contains(g, part) {
-					all = false
+	// A goroutine that matches a needle (or a standstill of all library code)
+	// only counts when it is found again, with the same stack, in a second dump
+	// five seconds later: on a busy machine a step can simply be slow, and a
+	// goroutine that waits for a lock for a moment looks exactly like one that
+	// waits for ever.  Up to seven rounds; after that the verdict is "slow".
+	buf := make([]byte, 8<<20)
+	take := func() string { return string(buf[:runtime.Stack(buf, true)]) }
+	matches := func(dump string) map[string]gor {
+		out := map[string]gor{}
+		for id, g := range parseDump(dump) {
+			for _, nd := range needles {
+				all := true
+				for _, part := range strings.Split(nd, "+") {
+					if !strings.Contains(g.text, part) {
+						all = false
+						break
+					}
+				}
+				if all {
+					out[id] = g
 					break
 				}
 			}
-			if all {
-				if len(g) > 3000 {
-					g = g[:3000]
+		}
+		return out
+	}
+	prev := take()
+	prevMatch := matches(prev)
+	for round := 0; round < 7; round++ {
+		time.Sleep(5 * time.Second)
+		select {
+		case e := <-done:
+			return e, "", false // it was merely slow
+		default:
+		}
+		cur := take()
+		curMatch := matches(cur)
+		for id, g := range curMatch {
+			if pg, ok := prevMatch[id]; ok && strings.Join(pg.funcs, "\n") == strings.Join(g.funcs, "\n") {
+				txt := g.text
+				if len(txt) > 3000 {
+					txt = txt[:3000]
 				}
-				return nil, g, false
+				return nil, txt, false
 			}
 		}
-	}
-	// no needle matched.  Second opinion: a standstill of all library code.
-	time.Sleep(5 * time.Second)
-	select {
-	case e := <-done:
-		return e, "", false // it was merely slow
-	default:
-	}
-	n2 := runtime.Stack(buf[n:], true)
-	if g, ok := standstill(dump, string(buf[n:n+n2])); ok {
-		return nil, g, false
+		if g, ok := standstill(prev, cur); ok {
+			return nil, g, false
+		}
+		prev, prevMatch = cur, curMatch
 	}
 	return nil, "", true
 }
